@@ -17,6 +17,7 @@ FUNCTIONS = ["statham.schema.elements.meta:ObjectMeta.__new__", "statham.schema.
 KW_VALUES = {
     # keyword: (parent value expr, child value expr) using holes m, n
     "additionalProperties": ("Integer(maximum=m)", "False"),
+    "additionalProperties_reopen": ("False", "True"),
     "patternProperties": ('{"^c": Integer(minimum=m)}', '{"^c": Integer(maximum=n), "b$": Integer()}'),
     "minProperties": ("m % 3", "n % 3"),
     "maxProperties": ("1 + m % 3", "1 + n % 3"),
@@ -30,12 +31,13 @@ KW_VALUES = {
 }
 
 
-def build(kw, pf, cf, m, n, padd, pover):
+def build(kw, pf, cf, m, n, padd, pover, use_parent_first=False):
     """returns (Parent, Child, Flat)"""
     from vf.common import Object, ObjectMeta, Property, Integer, Element, String
     from statham.schema.elements.meta import ObjectClassDict
 
     pv, cv = KW_VALUES[kw]
+    kw = kw.split("_")[0]
     env = {"m": m, "n": n, "Integer": Integer, "Element": Element, "String": String}
 
     def parent_props():
@@ -52,6 +54,11 @@ def build(kw, pf, cf, m, n, padd, pover):
     pkw = {kw: eval(pv, env)} if pf else {}
     ckw = {kw: eval(cv, env)} if cf else {}
     P = Object.inline("P", properties=parent_props(), **pkw)
+    if use_parent_first:
+        from vf.common import accepts
+
+        accepts(P, {"a": m, "b": 1})
+        accepts(P, {"a": m - 1})
     cd = ObjectClassDict()
     for k, p in child_props().items():
         cd[k] = p
@@ -67,10 +74,10 @@ def build(kw, pf, cf, m, n, padd, pover):
     return P, C, F
 
 
-def merge_ok(kw, pf, cf, m, n, padd, pover, v):
+def merge_ok(kw, pf, cf, m, n, padd, pover, v, use_parent_first=False):
     from vf.common import verdict, serialize_json, jeq, jcopy
 
-    P, C, F = build(kw, pf, cf, m, n, padd, pover)
+    P, C, F = build(kw, pf, cf, m, n, padd, pover, use_parent_first)
     ok_c, r = verdict(C, jcopy(v))
     ok_f, _ = verdict(F, jcopy(v))
     if ok_c != ok_f:
@@ -109,6 +116,7 @@ def isolation_ok(kw, m, n, op, v, w):
     from vf.common import snapshot, serialize_json, verdict, jcopy, Property, Integer, result_eq, jeq
 
     P, _C0, _F = build(kw, True, False, m, n, False, False)
+    kw = kw.split("_")[0]
     s0 = snapshot(P)
     j0 = serialize_json(P)
     a0, r0 = verdict(P, jcopy(v))
@@ -164,8 +172,12 @@ def harnesses(ctx) -> List[H]:
     for kw in KW_VALUES:
         hs.append(mk(f"c15_merge_{kw}", f"pf: bool, cf: bool, m: int, n: int, padd: bool, pover: bool, v: {DV}", DPRE,
                      f"return merge_ok({kw!r}, pf, cf, m, n, padd, pover, v)", timeout=200, group="merge",
-                     tier="quick" if kw in ("additionalProperties", "required", "patternProperties") else "thorough",
+                     tier="quick" if kw in ("additionalProperties", "additionalProperties_reopen", "required", "patternProperties") else "thorough",
                      covers=f"class keyword {kw}: present in parent (flag), overridden in child (flag); property added / overridden (flags)"))
+    for kw in ("additionalProperties", "required", "patternProperties"):
+        hs.append(mk(f"c15_merge_parent_used_first_{kw}", f"cf: bool, m: int, n: int, padd: bool, pover: bool, v: {DV}", DPRE,
+                     f"return merge_ok({kw!r}, True, cf, m, n, padd, pover, v, True)", timeout=200, group="merge",
+                     tier="quick" if kw == "additionalProperties" else "thorough", covers=f"{kw}: the parent validates values BEFORE the child is declared"))
     hs.append(mk("c15_chain", f"m: int, n: int, k: int, v: {DV}", DPRE, "return chain_ok(m, n, k, v)", timeout=120, group="merge"))
     for kw in ("required", "additionalProperties", "patternProperties", "dependencies", "minProperties"):
         for op in range(6):
